@@ -19,9 +19,9 @@ Pipeline
      cfg[target] == compute_fn(*[cfg[s] for s in sources]) recomputed by the harness (every item of a
      list of classes), the target is not in required_args and a parse that does not supply it
      succeeds, the option of a plain target raises ArgumentError, the target is absent from the yaml
-     and json dump (and from saved files), parse_string(dump(cfg)) == cfg; chains and double
-     targets raise ValueError at link_arguments time;
- (4) replay of the open findings.
+     and json dump (and from saved files), parse_string(dump(cfg)) == cfg; chains (a target among
+     the link's own sources included) and double targets raise ValueError at link_arguments time;
+ (4) replay of the repaired defect F15x (self link) and of the open findings.
 """
 from __future__ import annotations
 
@@ -43,8 +43,8 @@ MANIFEST = {
                  "parses, apply_parsing_links and strip_link_target_keys in isolation)",
     "text": "Theorems in lean/Jap/Props/C15.lean prove, for every compute-function table, every sequence of link_arguments calls accepted by the model "
             "of ActionLink.__init__ and every list of assignments reaching the parser through any channel: accepted link sets have no double target and "
-            "no target that is a source of another link; when no target is nested in / equal to a source or another target (the two open findings: a "
-            "link whose target is one of its own sources, and a target lying inside a group-valued source) every successfully parsed configuration has "
+            "no target that is a source of any link, its own included; when no target is nested in a source or another target (the open finding: a "
+            "target lying inside a group-valued source) every successfully parsed configuration has "
             "target = F(sources) whatever was supplied for the target, one pass is a fixed point and the order of application is irrelevant, the "
             "target is not required, the option of a plain target is rejected, stripped configurations do not hold the target (refuted for items of a "
             "list of classes: open finding 15c) and re-parsing the stripped configuration restores it.",
@@ -54,7 +54,6 @@ MANIFEST = {
 }
 
 F_LIST = "C15-list-item-target-in-dump"
-F_SELF = "C15-self-link"
 F_NESTED = "C15-nested-chain"
 F_SKIPPED = "C15-skipped-link-target-dropped"
 F_EMPTYSUB = "C15-subcommand-section-emptied"
@@ -459,8 +458,6 @@ def accepted_links(spec, rep):
 
 def link_attribution(l, links):
     """open-finding class that can explain a broken invariant of link `l` within the accepted set `links`"""
-    if l["target"] in l["sources"]:
-        return F_SELF
     for o in links:
         for s in l["sources"]:
             if nested(o["target"], s):
@@ -492,6 +489,8 @@ def should_reject(l, prev):
         why.append("source is a target (chain)")
     if l["target"] in psources:
         why.append("target is a source (chain)")
+    if l["target"] in l["sources"]:
+        why.append("target is one of its own sources (chain)")
     if not l.get("fn") and len(l["sources"]) != 1:
         why.append("several sources without function")
     return why
@@ -610,8 +609,6 @@ def oracle(case, deep=True):
         if r["ok"]:
             if why:
                 fail("link_arguments(%s -> %s) accepted although: %s" % (l["sources"], l["target"], ", ".join(why)))
-            if l["target"] in l["sources"]:
-                fail("link_arguments(%s -> %s) accepted although the target is one of its own sources" % (l["sources"], l["target"]), F_SELF)
             prev.append(l)
             if l["target"] in parser.required_args:
                 fail("link target %s is still in required_args" % l["target"])
@@ -827,7 +824,7 @@ def gen_link(rng, spec):
             return {"sources": rng.sample(ints, 2), "target": rng.choice(ints), "fn": None}
         return {"sources": ["nokey"], "target": rng.choice(ints) if ints else "a", "fn": None, "single_str": single_str}
     if r < 0.115 and ints:
-        t = rng.choice(ints)  # self link
+        t = rng.choice(ints)  # self link: refused since ba94f2f (fixed finding F15x)
         other = [k for k in ints if k != t]
         if rng.random() < 0.5 or not other:
             return {"sources": [t], "target": t, "fn": rng.choice(["double", "id", None]), "single_str": single_str}
@@ -1511,6 +1508,7 @@ def run(ctx: Ctx):
         ctx.sample({k: v for k, v in c.items() if k != "feed"})
 
     # --- catalogued findings
+    ctx.replay_fixed_demos()
     for f in ctx.open_findings():
         fails = oracle(f["witness"]["case"])
         if any(x["finding"] == f["id"] for x in fails):
